@@ -295,7 +295,7 @@ func reorgProperty(rt *rapid.T, ev *evid.Rec, o machineOpts, prop string) {
 			}
 			m.doReorg(st, s, head-uint64(depth)+1, txs, false)
 		case 4, 5, 6: // schedule a reorg inside the next step
-			kinds := []string{"", "headers", "blocks", "logs", "receipts", "latest", "hash"}
+			kinds := []string{"", "headers", "blocks", "logs", "receipts", "traces", "latest", "hash"}
 			pending = &pend{kind: rapid.SampledFrom(kinds).Draw(rt, "midkind"), k: rapid.IntRange(1, 6).Draw(rt, "k"), nth: rapid.IntRange(1, 2).Draw(rt, "nth"),
 				depth: rapid.IntRange(1, 4).Draw(rt, "depth"), newLen: rapid.IntRange(0, 5).Draw(rt, "newlen")}
 			for j := 0; j < pending.newLen; j++ {
@@ -438,7 +438,7 @@ func reorgProperty(rt *rapid.T, ev *evid.Rec, o machineOpts, prop string) {
 func TestC03_Reorg(t *testing.T) {
 	ev := evid.For("C03", "Reorg")
 	rapid.Check(t, func(rt *rapid.T) {
-		c03Property(rt, ev, machineOpts{MaxDecls: 3, Kinds: []string{"log", "tx"}, MaxBatch: 8, MaxConc: 4, InitBlocks: [2]int{3, 10}})
+		c03Property(rt, ev, machineOpts{MaxDecls: 3, Kinds: []string{"log", "tx", "tx", "trace"}, MaxBatch: 8, MaxConc: 4, InitBlocks: [2]int{3, 10}})
 	})
 }
 
